@@ -13,7 +13,7 @@ import random
 
 from harness import opsreplay, par, schemagamma, tlc
 
-OPTS = [dict(indent=4), dict(indent=2, include_descriptions=False), dict(indent="\t", include_custom_schema_directives=True)]
+OPTS = [dict(indent=4), dict(indent=2, include_descriptions=False), dict(indent="\t", include_custom_schema_directives=True), dict(indent=2)]
 HIST_SDL = [
     '''
 directive @tag(n: Int) on FIELD_DEFINITION | OBJECT
@@ -23,7 +23,13 @@ type Query @tag(n: 1) {
   a: Int @deprecated
   "other"
   b(x: Int = 3 @tag): Lvl @tag(n: 2) @deprecated(reason: "gone")
+  """
+  a description in block form
+  on two lines
+  """
+  c("ends with a quote \\"" y: Int): Int
 }
+extend type Query @tag(n: 5) { d: Int }
 enum Lvl { LO @deprecated HI }
 ''',
     '''
@@ -35,7 +41,15 @@ type Query {
   a: Other @tag @deprecated
 }
 "shared words"
-type Other @tag { "shared words" v: Int  w: Int @deprecated(reason: "why") }
+type Other @tag {
+  "shared words" v: Int  w: Int @deprecated(reason: "why")
+  """
+  a description in block form
+  on two lines
+  """
+  c("ends with a quote \\"" y: Int): Int
+}
+extend type Other @tag(n: 7) { x: Int }
 ''',
 ]
 
@@ -139,7 +153,7 @@ def run(chk):
             chk.diverge(k, wit, what)
     # ---- B: history independence
     calls = 3 if chk.quick else 4
-    cfg = tlc.cfg(constants={"NS": 2, "NO": 3, "MaxCalls": calls}, invariants=["Emit", "SameAsFirst"])
+    cfg = tlc.cfg(constants={"NS": 2, "NO": len(OPTS), "MaxCalls": calls}, invariants=["Emit", "SameAsFirst"])
     r = chk.tlc("GqlPrintHistory", cfg, tags=["PRN"], label="GqlPrintHistory calls<=%d" % calls)
     if r.rc != 0:
         raise tlc.TLCError("GqlPrintHistory: %s\n%s" % (r.violated, r.tail))
